@@ -60,7 +60,7 @@ def run(prop_id: str, tier: str, seed: int, replay=None, jobs=None) -> int:
     procs = []
     for s in range(nshards):
         out = work / f"shard{s}.json"
-        p, log = spawn(prop_id, tier, seed, s, nshards, out, replay, prop.worker_pyflags(s))
+        p, log = spawn(prop_id, tier, seed, s, nshards, out, replay, prop.worker_pyflags(s, nshards))
         procs.append((s, p, log, out))
 
     results, inconclusive = [], []
